@@ -2,6 +2,7 @@
 property's direct oracle; the Lean obligations are handled by prelude()."""
 import json
 import os
+import re
 import sys
 import time
 
@@ -276,7 +277,9 @@ def crash_family(res, ctx, tag, kinds, n_quick, n_thorough, io_mix=(0, 0, 0, 0, 
 
     def job(it):
         i, kind, io, ops, cfg = it
-        recs, err, rc = crashcheck.run_crash(ctx, ops, mode="io", cuts=cuts_quick if ctx.quick else cuts_thorough,
+        # every recovery of a memory-mapped image reads its zero extension (about a second): sampled cuts only
+        cuts = cuts_quick if (ctx.quick or (io == 1 and cuts_thorough == "all")) else cuts_thorough
+        recs, err, rc = crashcheck.run_crash(ctx, ops, mode="io", cuts=cuts,
                                              dumpfiles=True, level2=level2, timeout=1800, postmerge=postmerge)
         return recs, err, rc
     results = core.parallel_map(job, items, workers=8)
@@ -292,7 +295,7 @@ def crash_family(res, ctx, tag, kinds, n_quick, n_thorough, io_mix=(0, 0, 0, 0, 
 
 
 def check_C03(res, ctx):
-    crash_family(res, ctx, "C03", ["mixed", "mixed", "batch", "sync-batch"], 10, 160)
+    crash_family(res, ctx, "C03", ["mixed", "mixed", "batch", "sync-batch"], 10, 64)
     return "every intercepted I/O event of short workloads is a crash point (process death image) and, for files with an unsynced tail, " \
            "power-loss images cut to synced / middle / all-but-one byte (thorough: every length for tails <= 300 bytes and +-12 around block " \
            "boundaries); oracle: Open succeeds, the recovered mapping is the reference state after j acknowledged mutations with " \
@@ -300,7 +303,7 @@ def check_C03(res, ctx):
 
 
 def check_C04(res, ctx):
-    crash_family(res, ctx, "C04", ["batch", "batch", "sync-batch"], 7, 120)
+    crash_family(res, ctx, "C04", ["batch", "batch", "sync-batch"], 7, 48)
     # durability across clean restarts, later histories with merges
     n = 10 if ctx.quick else 150
     for i in range(n):
@@ -342,6 +345,23 @@ def check_C13(res, ctx):
             res.violation("run %d (%s): %s" % (i, cfg, problems[0]), {"ops": ops, "problems": problems[:5], "cfg": cfg})
         if i < 2:
             res.sample({"cfg": cfg, "ops": ops[:10], "events": [(r["ev"], r["file"], r["n"]) for r in recs if r["kind"] == "event"][:12]})
+    # Threshold boundary: sums of record sizes that land EXACTLY on BytesPerSync ("fewer than BytesPerSync unflushed")
+    for j, (bps, seq) in enumerate([(96, ["put 6b p1:36", "put 6b p2:36", "put 6b p3:36", "put 6b p4:36", "put 6b p5:35", "put 6b p6:37"]),
+                                    (48, ["put 6b p1:36", "put 6c p2:36", "del 6b"]),
+                                    (60, ["put 6b p1:36", "del 6b", "put 6b p2:36", "del 6b"]),
+                                    (12, ["put 6b p1:36", "del 6b", "put 6b -", "del 6b"])]):
+        for io in (0, 1):
+            ops = ["open d 65536 2 %d %d %d 4" % (bps, 1 + j % 3, io)] + seq + ["close"]
+            recs, err, rc = crashcheck.run_crash(ctx, ops, mode="points", cuts="none", dumpfiles=False)
+            res.evaluations += 1
+            res.count("threshold_boundary_runs")
+            res.distinct.add("boundary%d/%d" % (j, io))
+            if rc != 0:
+                res.violation("C13 boundary run died: %s" % err[-300:], {"ops": ops})
+                continue
+            problems = crashcheck.sync_policy_check(res, "boundary %d" % j, ops, recs)
+            if problems:
+                res.violation("Threshold(%d), record sizes summing exactly to BytesPerSync: %s" % (bps, problems[0]), {"ops": ops, "problems": problems[:5]})
     return "operation sequences under each SyncStrategy / BytesPerSync / batch Sync option / I/O type; the per-file write/sync event log is " \
            "inspected at the return of every public call: Always => nothing unflushed; Threshold => < BytesPerSync record bytes unflushed; " \
            "Sync batch => nothing unflushed at Commit; Sync()/Close() => nothing unflushed; a file is flushed before a new data file is created"
@@ -409,10 +429,14 @@ def check_C05(res, ctx):
     for i in range(n):
         rng = rng_for(ctx.seed, "C05", i)
         cfg = engine.rand_cfg(rng, io=(1 if i % 7 == 6 else 0), fs=rng.choice([4096, 4096, 20000, 65536]))
-        g = engine.Gen(rng, cfg, nkeys=rng.choice([3, 6]), weights={"batch": 40, "put": 25, "del": 6, "get": 4, "reopen": 1, "merge": 1,
-                                                                    "keys": 0, "fold": 0, "stat": 0}, max_val=rng.choice([600, 3000, 30000]))
+        coll = (i % 3 == 1)     # every third history stages keys with EQUAL xxhash64 (one bucket of the staging index, one index shard)
+        g = engine.Gen(rng, cfg, nkeys=(1 if coll else rng.choice([3, 6])), weights={"batch": 40, "put": 25, "del": 6, "get": 4, "reopen": 1, "merge": 1,
+                                                                    "keys": 0, "fold": 0, "stat": 0}, max_val=rng.choice([600, 3000, 30000]),
+                       collisions=(rng.choice([1, 2]) if coll else 0))
         ops = g.history(40 if ctx.quick else 80)
         res.count("fs%d" % cfg["fs"])
+        if coll:
+            res.count("histories_with_colliding_keys")
         engine_history_check(res, ctx, "batch history %d" % i, ops)
         if i < 1:
             res.sample({"ops_head": ops[:25]})
@@ -540,11 +564,15 @@ def check_C09(res, ctx):
     runs = [(1, 0), (2, 0), (3, 0)] if ctx.quick else [(1, 0), (2, 0), (3, 0), (1, 1), (3, 1)]
     secs = 12 if ctx.quick else 120
     results = core.parallel_map(lambda x: conccheck.run_race(ctx, secs, 8, x[0], x[1], ctx.seed, race=True), runs, workers=3)
+    # the same detector on "Backup every few ms under readers and a writer", memory-mapped files (remapping on the read path)
+    runs = runs + [(1, 1, "backup")]
+    results = results + [conccheck.run_race(ctx, 4 if ctx.quick else 30, 8, 1, 1, ctx.seed, race=True, mode="backup")]
     third_party = 0
-    for (idx, io), (rep, err, rc) in zip(runs, results):
+    for run, (rep, err, rc) in zip(runs, results):
+        idx, io = run[0], run[1]
         res.evaluations += 1
         res.count("race_runs")
-        name = "race-detector stress (index %d, io %d, 8 goroutines, %ds)" % (idx, io, secs)
+        name = "race-detector stress (index %d, io %d, 8 goroutines, %ds%s)" % (idx, io, secs, ", backups under load" if len(run) > 2 else "")
         if rep is None:
             res.violation("%s died: %s" % (name, err[-400:]), {"cmd": "xkv-race race", "stderr": err[-3000:]})
             continue
@@ -724,6 +752,27 @@ def check_C16(res, ctx):
                     res.violation("two processes had the same directory open at the same time: %s" % outs, {"outputs": outs})
             if not held:
                 res.violation("no process could open a fresh directory: %s" % outs, {"outputs": outs})
+        # (a2) the lock is held until Close has finished with the files: at every I/O event of Close another process tries to open
+        for io in (0, 1):
+            r = subprocess.run([core.XKV, "lock", "duringclose", base, "dc%d" % io, str(io)], capture_output=True, text=True, timeout=120)
+            line = r.stdout.strip()
+            res.evaluations += 1
+            res.count("open_during_close_runs")
+            res.distinct.add("duringclose:" + line)
+            m = re.match(r"close=(\S+) during=(\S*) after=(\S+)", line)
+            if not m:
+                res.violation("open-during-close scenario (io=%d) gave no result: %s %s" % (io, line[:200], r.stderr[-300:]), {"cmd": "xkv lock duringclose <base> dc %d" % io})
+                continue
+            attempts = [x for x in m.group(2).split(",") if x]
+            res.count("open_attempts_during_close", len(attempts))
+            got_in = [x for x in attempts if not x.endswith("err:inuse")]
+            if got_in:
+                res.violation("another process opened the directory while Close was still working on its files (io=%d): %s" % (io, got_in),
+                              {"cmd": "xkv lock duringclose <base> dc %d" % io, "output": line})
+            elif not attempts:
+                res.violation("open-during-close scenario (io=%d) saw no I/O event during Close (hooks drifted?)" % io, {"output": line}, no_input=True)
+            elif m.group(1) != "ok" or m.group(3) != "ok":
+                res.violation("open-during-close scenario (io=%d): close=%s, Open after Close=%s" % (io, m.group(1), m.group(3)), {"output": line})
         # (b) a rejected Open does not touch the directory (pending finished merge present)
         prep = ["open h 4096 0 0 3 0 16"] + ["put %02x%02x p%d:900" % (97 + j % 5, 97 + j % 5, j) for j in range(14)] + ["merge"]
         holder = subprocess.Popen([core.XKV, "run", base], stdin=subprocess.PIPE, stdout=subprocess.PIPE, text=True)
@@ -1080,6 +1129,22 @@ def check_C20(res, ctx):
                           {"ops": ops[:k + 1], "code": x, "model": y, "correspondence": "engine line protocol"}, no_input=True)
         if i < 1:
             res.sample({"ops_tail": ops[-30:]})
+    # backups taken while a writer and several readers keep going: "the source is unaffected and remains usable"
+    from . import conccheck
+    for io in ((1, 0) if ctx.quick else (1, 0, 1, 1)):
+        for idx in ((1,) if ctx.quick else (1, 2, 3)):
+            rep, err, rc = conccheck.run_race(ctx, 2 if ctx.quick else 10, 8, idx, io, ctx.seed, race=False, mode="backup")
+            res.evaluations += 1
+            res.count("backup_under_load_runs")
+            name = "Backup every few ms under 8 readers and a writer (index %d, io %d)" % (idx, io)
+            if rep is None:
+                res.violation("%s: the process died: %s" % (name, err[-400:]), {"cmd": "xkv race <dir> 2 8 %d %d %d backup" % (idx, io, ctx.seed), "stderr": err[-2000:]})
+            elif rep.get("errors"):
+                res.violation("%s: %s" % (name, json.dumps(rep["errors"])[:300]), {"cmd": "xkv race <dir> 2 8 %d %d %d backup" % (idx, io, ctx.seed), "report": rep})
+            else:
+                res.count("backups_under_load", rep["counts"].get("backup", 0))
+                res.count("gets_during_backups", rep["counts"].get("get", 0))
+                res.distinct.add("bk%d%d" % (idx, io))
     # the file layer under Backup: ResetFileSize on mapped files, then continued reads and appends
     from . import fiocheck
     fiocheck.run(res, ctx, "C20", 10 if ctx.quick else 200, diff_model, rng_for, backup_bias=True)
